@@ -54,6 +54,7 @@ def cases(tier, seed):
     progs = list(GP.gen_base(2 if tier == 'quick' else 3))
     for p in GP.gen_base(1 if tier == 'quick' else 2):
         progs += GP.option_deviations(p)
+    progs += GP.gen_special()
     for p in progs:
         if GP.structure_flags(p) & {'cat->dwconv'}:
             continue
